@@ -44,33 +44,34 @@ type LoopSpec struct {
 }
 
 type Contract struct {
-	Kind     string // func extern functype iface struct
-	Key      string
-	Pkg      string // package path of the contract file
-	PkgName  string
-	Props    []string
-	IntMode  string
-	Pure     bool
-	Trusted  bool
-	Requires []*Clause
-	Ensures  []*Clause
-	Invs     []*Clause // struct invariants
-	Assumes  []*Clause
-	Modifies []string // frame items; nil = inferred
-	HasMod   bool
-	Loops    map[int]*LoopSpec
-	Pos      token.Position
-	File     *ast.File
-	Params   []string // for externs/functypes without resolvable decl: optional names
-	Observes   []*Observe
-	Pairs      string       // the load-time checker whose acceptance establishes the `checked` clauses
-	Checked    []*Clause    // facts established at load time by the paired checker (assumed at entry, proved as lemmas from the checker's postconditions)
-	NoInv      []string     // parameters whose object invariant is neither assumed at entry nor required at calls (initialisers)
-	ExitsSeparate bool      // check the postconditions at every return separately instead of on the merged exit
-	Like       []string     // func blocks: copy requires/ensures/modifies of these contracts (same package)
-	Implements string       // func blocks: "<pkg>.<FuncType>" or "<pkg>.<Iface>.<Method>" whose contract this function must satisfy
-	Ghosts    []*GhostField // struct blocks: ghost fields
-	Immutable []string      // struct blocks: fields written only on freshly allocated objects
+	Kind          string // func extern functype iface struct
+	Key           string
+	Pkg           string // package path of the contract file
+	PkgName       string
+	Props         []string
+	IntMode       string
+	Pure          bool
+	Trusted       bool
+	Requires      []*Clause
+	Ensures       []*Clause
+	Invs          []*Clause // struct invariants
+	Assumes       []*Clause
+	Modifies      []string // frame items; nil = inferred
+	HasMod        bool
+	Loops         map[int]*LoopSpec
+	Pos           token.Position
+	File          *ast.File
+	Params        []string // for externs/functypes without resolvable decl: optional names
+	Observes      []*Observe
+	Overwrites    []string      // parameters (pointers to structs) every field of which is assigned on every path to a return
+	Pairs         string        // the load-time checker whose acceptance establishes the `checked` clauses
+	Checked       []*Clause     // facts established at load time by the paired checker (assumed at entry, proved as lemmas from the checker's postconditions)
+	NoInv         []string      // parameters whose object invariant is neither assumed at entry nor required at calls (initialisers)
+	ExitsSeparate bool          // check the postconditions at every return separately instead of on the merged exit
+	Like          []string      // func blocks: copy requires/ensures/modifies of these contracts (same package)
+	Implements    string        // func blocks: "<pkg>.<FuncType>" or "<pkg>.<Iface>.<Method>" whose contract this function must satisfy
+	Ghosts        []*GhostField // struct blocks: ghost fields
+	Immutable     []string      // struct blocks: fields written only on freshly allocated objects
 }
 
 // GhostField: `ghost depth int = <expr over self>  on Before` : a specification-only
@@ -116,19 +117,21 @@ type Sweep struct {
 	Props []string
 	Names []string
 	Pkg   string
+	Frame string // framesweep: name of the (component-level) frame every matching function is checked against
 }
 
 type ContractSet struct {
-	Defaults map[string][]string // pkgpath -> type texts whose parameters are non-nil by default
-	Frames   map[string][]string // named frame sets: name -> items
-	FramePkg map[string]string   // named frame -> package path of the file that defines it
-	TypeInvs []TypeInv           // module-wide type-level invariants
-	GlobalNonNil map[string]bool // package-level variables that are never nil (checked at stores, assumed at loads)
-	ByKey  map[string]*Contract // key: kind + " " + pkgpath + " " + name
-	Specs  map[string]*SpecFun  // pkgpath + "." + name, and bare name
-	Sweeps []*Sweep
-	Errors []string
-	Lemmas []*Clause
+	Defaults     map[string][]string  // pkgpath -> type texts whose parameters are non-nil by default
+	Frames       map[string][]string  // named frame sets: name -> items
+	FramePkg     map[string]string    // named frame -> package path of the file that defines it
+	TypeInvs     []TypeInv            // module-wide type-level invariants
+	GlobalNonNil map[string]bool      // package-level variables that are never nil (checked at stores, assumed at loads)
+	ByKey        map[string]*Contract // key: kind + " " + pkgpath + " " + name
+	Specs        map[string]*SpecFun  // pkgpath + "." + name, and bare name
+	Sweeps       []*Sweep
+	FrameSweeps  []*Sweep
+	Errors       []string
+	Lemmas       []*Clause
 }
 
 var tagRe = regexp.MustCompile(`^([a-z]+)\[([A-Z0-9, ]+)\]`)
@@ -288,6 +291,15 @@ func (cs *ContractSet) readFile(fset *token.FileSet, f *ast.File, pkgPath, pkgNa
 				}
 			case "sweep":
 				cs.Sweeps = append(cs.Sweeps, &Sweep{Props: props, Names: strings.Fields(rest), Pkg: pkgPath})
+			case "framesweep":
+				// framesweep[Cxx] frameName glob... : every matching function of this package writes,
+				// on objects that existed before the call, only what the named frame lists
+				fl := strings.Fields(rest)
+				if len(fl) < 2 {
+					errf(pos, "framesweep needs a frame name and function patterns")
+					continue
+				}
+				cs.FrameSweeps = append(cs.FrameSweeps, &Sweep{Props: props, Frame: fl[0], Names: fl[1:], Pkg: pkgPath})
 			case "lemma":
 				cl := &Clause{Kind: "lemma", Text: rest, Props: props, Pos: pos}
 				cs.Lemmas = append(cs.Lemmas, cl)
@@ -308,6 +320,9 @@ func (cs *ContractSet) readFile(fset *token.FileSet, f *ast.File, pkgPath, pkgNa
 					cur.Trusted = true
 				case "params":
 					cur.Params = strings.Fields(rest)
+				case "overwrites":
+					// overwrites p [-field ...]: one parameter per clause; excluded field paths follow with a leading '-'
+					cur.Overwrites = append(cur.Overwrites, rest)
 				case "noinv":
 					cur.NoInv = append(cur.NoInv, strings.Fields(rest)...)
 				case "exits":
